@@ -127,6 +127,30 @@ def compare(a, op, b):
     return {ast.Lt: ka < kb, ast.LtE: ka <= kb, ast.Gt: ka > kb, ast.GtE: ka >= kb, ast.Eq: ka == kb, ast.NotEq: ka != kb}.get(type(op))
 
 
+def extremum(vs, is_max):
+    """builtin max/min of float classes, evaluated as Python does: the first argument is kept unless a later one compares
+    greater (smaller) - so a NaN in first position is returned, a NaN in a later position is skipped"""
+    op = ast.Gt() if is_max else ast.Lt()
+    cur = vs[0]
+    for v in vs[1:]:
+        c = compare(v, op, cur)
+        if c is True:
+            cur = v
+        elif c is None:
+            if v.cls == "fin" and cur.cls == "fin":
+                if is_max and 1 in (v.sign, cur.sign):
+                    cur = fin(1)
+                elif (not is_max) and -1 in (v.sign, cur.sign):
+                    cur = fin(-1)
+                elif v.sign is not None and cur.sign is not None:
+                    cur = fin(max(v.sign, cur.sign) if is_max else min(v.sign, cur.sign))
+                else:
+                    cur = fin(None)
+            else:
+                cur = UNKV
+    return cur
+
+
 class _Done(Exception):
     def __init__(self, how):
         self.how = how
@@ -238,6 +262,10 @@ class Interp:
                 v = self.ev(e.args[0], env, selfname)
                 if isinstance(v, FV):
                     return {"-inf": PINF, "+inf": PINF, "nan": NAN, "unk": UNKV}.get(v.cls) or fin(None if v.sign is None else abs(v.sign))
+            if fn in ("max", "min") and len(e.args) >= 2 and not e.keywords:
+                vs = [self.ev(a, env, selfname) for a in e.args]
+                if all(isinstance(v, FV) for v in vs):
+                    return extremum(vs, fn == "max")
             raise Unsupported(f"call `{ast.unparse(e)}`")
         if isinstance(e, (ast.Tuple, ast.List)):
             return ("tuple", [self.ev(x, env, selfname) for x in e.elts])
